@@ -151,6 +151,43 @@ def run_indicator_cases(cases, res):
             if bool(obj.status.get('extended_prec', 'MISSING')) != (obj.n_word >= 64) or 'extended_prec' not in obj.status:
                 res.fail(dict(c, route=name), 'C18: the extended-precision indicator is not (n_word >= 64)', expected=obj.n_word >= 64, got=obj.status.get('extended_prec', 'MISSING')); break
 
+WIDTHS = [64, 65, 66, 72, 96, 127, 128, 129, 200, 256]
+def shift_cases(rng, n):
+    """the shift operators on wide words (default shifting = expand: x << n is x * 2^n and x >> n is x / 2^n exactly, the word or the
+    fraction growing as needed), on scalars and arrays, codes at and next to powers of two"""
+    cases = []
+    for _ in range(n):
+        nw = rng.choice(WIDTHS); s = rng.random() < 0.6; nf = rng.choice([0, 1, nw // 2, nw - 1, nw]); lo, hi = S.fmt_bounds(s, nw)
+        def code():
+            k = rng.randint(40, nw - 2)
+            c = rng.choice([1 << k, (1 << k) + 1, (1 << k) - 1, hi, hi - 1, 3 << (k - 1), rng.randint(0, hi), 5, 1])
+            if s and rng.random() < 0.45: c = rng.choice([-c, -c - 1, lo, lo + 1])
+            return max(lo, min(hi, c))
+        cs = [code() for _k in range(rng.choice([1, 1, 2, 3]))]
+        cases.append({'s': s, 'nw': nw, 'nf': nf, 'shift_codes': cs, 'n': rng.choice([0, 1, 1, 2, 3, 7, 64]), 'dir': rng.choice(['<<', '<<', '>>']), 'arr': len(cs) > 1 or rng.random() < 0.3})
+    return cases
+
+def run_shift_cases(cases, res):
+    fx = lib.impl(); import numpy as np
+    for c in cases:
+        s, nw, nf, cs, n = c['s'], c['nw'], c['nf'], c['shift_codes'], c['n']
+        try:
+            x = fx.Fxp(list(cs), s, nw, nf, raw=True) if c['arr'] else fx.Fxp(cs[0], s, nw, nf, raw=True)
+            z = (x << n) if c['dir'] == '<<' else (x >> n)
+            zc = [int(v) for v in np.asarray(z.val).reshape(-1).tolist()]; zf = (bool(z.signed), int(z.n_word), int(z.n_frac)); st = lib.status3(z)[:2]
+            after = [int(v) for v in np.asarray(x.val).reshape(-1).tolist()]
+        except Exception as e:
+            res.fail(c, 'C18: %s on a wide word raised %s' % (c['dir'], lib.exc_name(e)), got=str(e)[:200]); continue
+        want = [Fraction(v) / Fraction(2) ** nf * (Fraction(2) ** n if c['dir'] == '<<' else Fraction(1, 2 ** n)) for v in (cs if c['arr'] else cs[:1])]
+        got = [Fraction(v) / Fraction(2) ** zf[2] for v in zc]
+        res.count('H:shifts-on-wide-words', key=repr(c), nontrivial=n > 0, n=len(want))
+        res.sample({k: c[k] for k in ('s', 'nw', 'nf', 'n', 'dir', 'arr')})
+        lo, hi = S.fmt_bounds(zf[0], zf[1])
+        if got != want or st != (False, False) or any(not (lo <= v <= hi) for v in zc):
+            res.fail(c, 'C18: x %s n on a wide word (expand mode) is not exactly x %s 2^n' % (c['dir'], '*' if c['dir'] == '<<' else '/'), expected=[str(w) for w in want], got=(zf, zc, st)); continue
+        if after != (list(cs) if c['arr'] else cs[:1]):
+            res.fail(c, 'C18: a shift modified its operand', expected=cs, got=after)
+
 def shard(shard, nshards, rng, tier, extra):
     res = Result()
     run_cases([gen(rng) for _ in range((3000 if tier == 'quick' else 80000) // nshards)], res)
@@ -159,6 +196,7 @@ def shard(shard, nshards, rng, tier, extra):
     # 2-D arrays of Python integers in C order, as transposed views and in Fortran order, both overflow modes: stored position by position
     import c03
     c03.run_wide2d(c03.wide2d_cases(rng, (300 if tier == 'quick' else 8000) // nshards, omodes=('wrap', 'saturate')), res, pid='C18')
+    run_shift_cases(shift_cases(rng, (600 if tier == 'quick' else 15000) // nshards), res)
     return res
 
 def run(seed, tier):
@@ -168,6 +206,7 @@ def replay(payload):
     res = Result(); c = payload['case']
     if 'c' in c: run_cases([c], res)
     elif 'cs' in c: run_array_cases([c], res)
+    elif 'shift_codes' in c: run_shift_cases([c], res)
     elif 'shape2d' in c:
         import c03; c03.run_wide2d([c], res, pid='C18')
     elif 'n' in c: run_indicator_cases([c], res)
